@@ -45,6 +45,55 @@ def gen_session(repo):
     lo, hi = one(r'\(exitcode\s*>=\s*(\d+)\)\s*&&\s*\(exitcode\s*<=\s*(\d+)\)', q, 'queue_result permanent exit code range')
     out += 'Definition QQ_PERM_LO : nat := %s.\nDefinition QQ_PERM_HI : nat := %s.\n' % (lo, hi)
     out += 'Definition CMD_LINE_MAX : nat := %s.\n' % one(r'linein\.len\s*>\s*(\d+)\)\)\s*\{', src, 'command line limit 510')
+    out += gen_submission(src, data)
+    return out
+
+
+def gen_submission(qsrc, data):
+    """submission mode (port 587): the port string, the header names looked for by check_rfc822_headers() with their flag bits,
+    and the literal pieces of the Date / From / Message-Id fields smtp_data() appends to the header block, in the order written"""
+    out = '\n(* submission mode: qsmtpd.c (submission_mode), data.c (check_rfc822_headers, smtp_data) *)\n'
+    port = one(r'submission_mode\s*=\s*\(localport\s*!=\s*NULL\)\s*&&\s*\(strcmp\(localport\s*,\s*"([^"]*)"\)\s*==\s*0\)', qsrc, 'qsmtpd.c: submission_mode = localport is "587"')
+    out += 'Definition SUBM_PORT : list N := %s.\n' % coq_bytes(c_unescape(port))
+    pats = one(r'const\s+char\s*\*\s*searchpattern\[\]\s*=\s*\{([^}]*)\}', data, 'data.c: searchpattern[] of check_rfc822_headers')
+    names = re.findall(r'"([^"]*)"', pats)
+    if len(names) != 3 or not re.search(r',\s*NULL\s*$', pats.strip()):
+        raise TranslateError('data.c: searchpattern[] is not three names and NULL: %r' % pats)
+    if not re.search(r'\(\*headerflags\)\s*&\s*\(1\s*<<\s*j\)', data) or not re.search(r'\*headerflags\s*\|=\s*\(1\s*<<\s*j\)', data):
+        raise TranslateError('data.c: check_rfc822_headers does not use bit (1 << j) for searchpattern[j]')
+    out += '(* header names of check_rfc822_headers(): searchpattern[j] has flag bit 1 << j *)\n'
+    out += 'Definition HDR_PATTERNS : list (list N) := [%s].\n' % '; '.join(coq_bytes(c_unescape(n)) for n in names)
+    flags = {}
+    for nm in ('DATE', 'FROM', 'MSGID'):
+        flags[nm] = int(one(r'HEADER_HAS_%s\s*=\s*(0x[0-9a-fA-F]+|\d+)' % nm, data, 'data.c: HEADER_HAS_' + nm), 0)
+    if [flags['DATE'], flags['FROM'], flags['MSGID']] != [1, 2, 4]:
+        raise TranslateError('data.c: HEADER_HAS_DATE/FROM/MSGID are not 1, 2, 4: %r' % flags)
+    # the block that writes the additions: the first `if (... submission_mode ...) {` of smtp_data behind the header loop, up to
+    # its `} else if`.  Which condition guards which field is NOT taken from here (the model is a hand transcription, the
+    # whole-program comparison judges it); only the literal pieces are, in the order of the three inner blocks.
+    m = re.search(r'\n\tif\s*\([^\n{]*submission_mode[^\n{]*\)\s*\{(.*?)\n\t\}\s*else\s+if\s*\(', data, flags=re.S)
+    if not m:
+        raise TranslateError('data.c: block `if (submission_mode) { ... } else if (` not found in smtp_data')
+    blk = m.group(1)
+    parts = re.split(r'\n\t\tif\s*\(([^\n{]*)\)\s*\{', blk)
+    if len(parts) != 7:
+        raise TranslateError('data.c: expected three inner blocks (Date, From, Message-Id) in the submission block, found %d' % (len(parts) // 2))
+    order = ['DATE', 'FROM', 'MSGID']
+    lits = {}
+    for nm, body in zip(order, parts[2::2]):
+        # the pieces of this field: up to the closing brace of the if block (tab-indented by two)
+        body = body.split('\n\t\t}')[0]
+        lits[nm] = [c_unescape(x) for x in re.findall(r'iov_base\s*=\s*"((?:[^"\\]|\\.)*)"\s*;', body)]
+        lits[nm + '_n'] = len(re.findall(r'iov_base\s*=', body))
+    if len(lits['DATE']) != 1 or lits['DATE_n'] != 2 or len(lits['FROM']) != 2 or lits['FROM_n'] != 3 or len(lits['MSGID']) != 3 or lits['MSGID_n'] != 5:
+        raise TranslateError('data.c: unexpected shape of the submission additions (literal / variable pieces): %r' % lits)
+    out += '(* literal pieces of the fields appended in submission mode, in the order written: Date, From, Message-Id *)\n'
+    out += 'Definition SUBM_DATE_PFX : list N := %s.\n' % coq_bytes(lits['DATE'][0])
+    out += 'Definition SUBM_FROM_PFX : list N := %s.\n' % coq_bytes(lits['FROM'][0])
+    out += 'Definition SUBM_FROM_END : list N := %s.\n' % coq_bytes(lits['FROM'][1])
+    out += 'Definition SUBM_MSGID_PFX : list N := %s.\n' % coq_bytes(lits['MSGID'][0])
+    out += 'Definition SUBM_MSGID_AT : list N := %s.\n' % coq_bytes(lits['MSGID'][1])
+    out += 'Definition SUBM_MSGID_END : list N := %s.\n' % coq_bytes(lits['MSGID'][2])
     return out
 
 GENERATORS = {'GenSession.v': gen_session}
